@@ -126,3 +126,41 @@ example : validate ⟨["sin", "cos"], ["pi", "e"], ["cos"], .nothing, ["x"], [],
   decide +kernel
 
 end C20
+
+namespace C20
+open Mc
+
+/-- construction passes the cross-option validation exactly when each of the three groups of rules passes -/
+theorem validate_none_iff (c : Cfg) : validate c = none ↔ checkLists c = none ∧ checkOverrides c = none ∧ checkCollisions c = none := by
+  unfold validate orElse'
+  cases h1 : checkLists c <;> cases h2 : checkOverrides c <;> cases h3 : checkCollisions c <;> simp
+
+/-- no collision error ⇔ no declared variable is also a (kept) user constant -/
+theorem checkCollisions_none_iff (c : Cfg) :
+    checkCollisions c = none ↔ ∀ x, (x, false) ∈ c.userConstants → x ∉ c.variables := by
+  unfold checkCollisions
+  simp only []
+  constructor
+  · intro h x hx hv
+    have hmem : x ∈ (constants' c).filter (fun e => c.variables.contains e) := by
+      simp only [List.mem_filter, constants', List.mem_map]
+      exact ⟨⟨(x, false), by simp [hx], rfl⟩, by simpa using hv⟩
+    split at h
+    · cases h
+    · rename_i hemp
+      have : ((constants' c).filter (fun e => c.variables.contains e)).isEmpty = true := by simpa using hemp
+      rw [List.isEmpty_iff] at this
+      rw [this] at hmem; cases hmem
+  · intro h
+    have hempty : (constants' c).filter (fun e => c.variables.contains e) = [] := by
+      apply List.filter_eq_nil_iff.mpr
+      intro a ha
+      simp only [constants', List.mem_map, List.mem_filter] at ha
+      obtain ⟨⟨k, b⟩, ⟨hk, hb⟩, rfl⟩ := ha
+      have hb' : b = false := by simpa using hb
+      subst hb'
+      have := h k hk
+      simpa using this
+    rw [hempty]; rfl
+
+end C20
